@@ -34,5 +34,9 @@ PROPS["C17"] = dict(
                   "auto-pause), recorded by the harness from the real service module's events and state",
                   "JSON handling (gjson path lookup, JSON-schema validation) is an oracle: fields are interned names"],
     assumptions=["response values are finite decimals within the float64 range; NaN/Inf strings and overflowing literals are outside the model",
-                 "block times are whole seconds"],
+                 "block times are whole seconds",
+                 "run_wfb (hypothesis of one_value_per_successful_batch, stamped_with_block_time, keeps_newest_latest_history, "
+                 "newest_min_latest_history_produced): the service module completes a batch only while it is running; validated on "
+                 "every generated history by sevs_consistent (real BatchState, batch counter and threshold snapshot before every "
+                 "completed batch) - a violation is reported as a divergence"],
 )
